@@ -215,6 +215,12 @@ func c01Scale(ctx *core.Ctx, fam gen.Family) {
 	pts := []pt{}
 	for _, n := range sizes {
 		in := fam.Make(n)
+		if len(in) > 48<<10 && len(pts) >= 4 {
+			// the renderers copy their left operand at every level (quadratic bytes): beyond
+			// 48 KiB a single case costs tens of seconds without telling anything new
+			ctx.Count("scale_sizes_skipped_over_48KiB", 1)
+			break
+		}
 		var m0, m1 runtime.MemStats
 		runtime.ReadMemStats(&m0)
 		var r c01Result
